@@ -13,11 +13,20 @@ Five parts (each counted separately in the evidence):
     random longer ones.  The perfect fast path is compared on its request sizes.
  B. CORRESPONDENCE of `probs_to_sample_count` (np.random.normal, random.choice and the fall-back sampler
     replaced by scripted streams), `_deduce_count` (through the keyword interface),
-    `samples_to_sample_count`, `sample_count_to_probs`.
+    `samples_to_sample_count`, `sample_count_to_probs`.  One case in five is a *crowded* table (tens to hundreds of
+    states with expected counts around 0.5..2.5) whose rounded total is off by several units while no state holds
+    more than 1-3 counts: the repair must spread over several states.
+ B2. DIRECT ORACLE with the REAL generators (seeded per case): `probs_to_sample_count`, `probs_to_samples`,
+    `sample_count_to_samples`, `samples_to_sample_count`, `sample_count_to_probs` on crowded / small / large /
+    skewed tables with the request given positionally or by max_samples / max_shots: totals equal the request
+    exactly, no negative or foreign entry.
  C. DIRECT ORACLE on real processors: all (max_samples, max_shots) in {0,1,2,5,17,None}^2 through
     `Processor.samples` and `Sampler.samples / sample_count`: returned <= min(...), every sample legal.
+ C2. DIRECT ORACLE: `Sampler(strong-simulation processor).samples / sample_count(n)` (results CONVERTED from
+    probabilities) on 5..32-mode Haar and balanced interferometers with n of the order of the number of outcomes:
+    the total is exactly min(n, max_shots_per_call), every state legal.
  D. VALIDATION (not proof): seed reproducibility — every Python-layer random path run twice under
-    `pcvl.random_seed(s)` and compared bit for bit.
+    `pcvl.random_seed(s)` and compared bit for bit; the seeds 0, 1 and 2**32-1 are part of every run.
  E. VALIDATION (not proof), a *statistical test*: goodness of fit of samples against the distribution
     strong simulation of the same processor computes, and of the reported performances.  Thresholds are
     finite-sample bounds (Chernoff/KL bound on every binomial cell, Bretagnolle-Huber-Carol bound on the
@@ -2067,7 +2076,9 @@ def run(chk: core.Check):
         "A: scripted NoisySamplingSimulator.samples runs (outcome script x batch-size script x cancel script x "
         "(max_samples, max_shots) x filter x source/distribution route), distinct = distinct scripts, non-trivial "
         "= at least 2 shots taken; B: probs_to_sample_count cases (table, perturbation, count, pick stream), "
-        "non-trivial = >= 2 states and count >= 2; C: (processor, entry point, max_samples, max_shots) with both "
+        "non-trivial = >= 2 states and count >= 2; B2: (table, request, keyword form, seed) with the real generators; "
+        "C2: (strong-simulation processor, entry point, max_samples, max_shots_per_call, seed); "
+        "C: (processor, entry point, max_samples, max_shots) with both "
         "limits in {0,1,2,5,17,None}; D: (random path, seed); E: (processor, entry point) goodness-of-fit tests, "
         "non-trivial = >= 1000 samples")
     chk.assumptions = [
